@@ -1998,22 +1998,16 @@ func (r stack) traverse(indices ...int) (slice any, ok, done bool) {
 			return
 		}
 
-		// begin "walking" path of int breadcrumbs ...
-		for i := 0; i < len(indices); i++ {
+		// Only the first path element belongs to this level; the
+		// remaining ones are consumed by the nested instance(s)
+		// reached through it (see traverseStack).
+		if instance, _, found := r.index(indices[0]); found {
 
-			current := indices[i] // user-facing index number w/ offset
-
-			if instance, _, found := r.index(current); found {
-
-				// Begin assertion of possible traversable and non-traversable
-				// values. We'll go as deep as possible, provided each nesting
-				// instance is a Stack/Stack alias, or Condition/Condition alias
-				// containing a Stack/Stack alias value.
-				if slice, ok, done = r.traverseAssertionHandler(instance, i, indices...); !done {
-					continue
-				}
-			}
-			break
+			// Begin assertion of possible traversable and non-traversable
+			// values. We'll go as deep as possible, provided each nesting
+			// instance is a Stack/Stack alias, or Condition/Condition alias
+			// containing a Stack/Stack alias value.
+			slice, ok, done = r.traverseAssertionHandler(instance, 0, indices...)
 		}
 	}
 
